@@ -4,6 +4,7 @@ package main
 // inlining, defers, lock discipline.
 
 import (
+	"sort"
 	"fmt"
 	"go/token"
 	"go/types"
@@ -95,9 +96,7 @@ func (fr *frame) beforeAsserts(cc *ssa.CallCommon, st *bstate, site ssa.Instruct
 		if !match || !f.e.active(ba.C.Tags) {
 			continue
 		}
-		key := fmt.Sprintf("%d|%s|%p", fr.id, ba.Callee, ba)
-		fr.f.callOrd[key]++
-		if fr.f.callOrd[key] != ba.Ordinal {
+		if fr.siteOrdinal(ba.Callee, site) != ba.Ordinal {
 			continue
 		}
 		ba.C.used = true
@@ -233,6 +232,11 @@ func (fr *frame) applyCall(cc *ssa.CallCommon, st *bstate, site ssa.Instruction,
 		} else {
 			name = "dyn:" + valueLabel(cc.Value)
 			spec, pnames = fr.callSpecFor(cc)
+			if spec == nil {
+				if res, ok := fr.guardedDispatch(cc, fv, args, st, rt, site); ok {
+					return res
+				}
+			}
 			if spec != nil {
 				// callspecs see the function value itself as "self"
 				args = append([]Val{fv}, args...)
@@ -482,12 +486,51 @@ func (fr *frame) applySpec(spec *FuncSpec, name string, pnames []string, args []
 	} else if result.K != KUnit {
 		rvals = []Val{result}
 	}
+	for _, rec := range spec.Records {
+		g, ok := f.e.specs.ghosts[rec[0]]
+		if !ok || len(g.Params) != 0 {
+			f.fail("%s: records %s: no such scalar ghost", spec.Line, rec[0])
+			continue
+		}
+		gt, err := f.e.resolveType(g.Pkg, g.T)
+		if err != nil {
+			continue
+		}
+		var v Val
+		found := false
+		if strings.HasPrefix(rec[1], "ret") {
+			idx := 0
+			fmt.Sscanf(rec[1][3:], "%d", &idx)
+			if idx < len(rvals) {
+				v, found = rvals[idx], true
+			}
+		} else if pv, ok := vars[rec[1]]; ok {
+			v, found = pv, true
+		}
+		if !found {
+			f.fail("%s: records %s %s: no such parameter/result", spec.Line, rec[0], rec[1])
+			continue
+		}
+		if kindOf(gt) == KAny && v.K != KAny && v.T != nil {
+			v = f.makeIface(st, v, v.T)
+		}
+		if v.K != kindOf(gt) {
+			f.fail("%s: records %s %s: kind mismatch", spec.Line, rec[0], rec[1])
+			continue
+		}
+		key := f.ghostKey(g.Name, sortOfType(gt), false, "")
+		st.heap = f.hs.write(st.heap, key, v.Tm)
+	}
 	post := f.newEnv(spec.Pkg, st.heap, pre, vars, rvals)
+	post.atCallSite = true
 	for _, c := range spec.Ensures {
 		if !f.e.active(c.Tags) {
 			continue
 		}
 		v, err := post.evalBool(c.E)
+		if err != nil && strings.Contains(err.Error(), errSkipClause.Error()) {
+			continue
+		}
 		if err != nil {
 			f.fail("%s: ensures of %s at call: %v", c.Line, sn, err)
 			continue
@@ -1665,4 +1708,137 @@ func (fr *frame) havocWritersPassed(args []Val, st *bstate) {
 			}
 		}
 	}
+}
+
+// guardedDispatch: a call of a function value that may be one of the closures
+// built in this very call (a dispatch table): one guarded instance per
+// candidate closure of the right signature, plus the unknown-callee instance
+// for "none of them".
+func (fr *frame) guardedDispatch(cc *ssa.CallCommon, fv Val, args []Val, st *bstate, rt types.Type, site ssa.Instruction) (Val, bool) {
+	f := fr.f
+	if fv.K != KRef || f.inlineDepth >= 3 {
+		return Val{}, false
+	}
+	sig := cc.Signature()
+	type cand struct {
+		ref string
+		ci  *closureInfo
+	}
+	var cands []cand
+	for _, ref := range sortedKeys(f.closures) {
+		ci := f.closures[ref]
+		if ci.fn.Signature.Recv() == nil && types.Identical(ci.fn.Signature, sig) || types.Identical(types.NewSignatureType(nil, nil, nil, ci.fn.Signature.Params(), ci.fn.Signature.Results(), ci.fn.Signature.Variadic()), types.NewSignatureType(nil, nil, nil, sig.Params(), sig.Results(), sig.Variadic())) {
+			cands = append(cands, cand{ref, ci})
+		}
+	}
+	if len(cands) == 0 || len(cands) > 16 {
+		return Val{}, false
+	}
+	var reaches []string
+	var heaps []*Heap
+	var segs []*seg
+	var results []Val
+	none := st.reach
+	for _, c := range cands {
+		cond := eq(fv.Tm, c.ref)
+		sub := &bstate{reach: and(st.reach, cond), heap: st.heap, seg: f.newSeg(st.seg)}
+		none = and(none, not(cond))
+		saved := fr.cur
+		fr.cur = sub
+		var res Val
+		if spec := f.e.specFor(c.ci.fn); spec != nil && !spec.Inline {
+			var pn []string
+			for _, p := range c.ci.fn.Params {
+				pn = append(pn, p.Name())
+			}
+			res = fr.applySpec(spec, c.ci.fn.String(), pn, args, rt, sub, site)
+		} else {
+			res = fr.inline(c.ci.fn, args, c.ci.bind, sub, rt)
+		}
+		fr.cur = saved
+		if sub.reach == "false" {
+			continue
+		}
+		reaches = append(reaches, sub.reach)
+		heaps = append(heaps, sub.heap)
+		segs = append(segs, sub.seg)
+		results = append(results, res)
+	}
+	// none of the known closures: unknown callee
+	subN := &bstate{reach: none, heap: f.hs.havocAll(st.heap), seg: f.newSeg(st.seg)}
+	subN.heap.byCall = true
+	f.abstr["call-unknown:dyn:"+valueLabel(cc.Value)]++
+	var resN Val
+	if rt != nil {
+		resN = f.freshVal("res.dyn", rt)
+		f.assumeTypeRange(subN, resN)
+	} else {
+		resN = Val{K: KUnit}
+	}
+	reaches = append(reaches, subN.reach)
+	heaps = append(heaps, subN.heap)
+	segs = append(segs, subN.seg)
+	results = append(results, resN)
+	st.reach = f.c.define("reach.dispatch", sortBool, or(reaches...))
+	st.heap = f.hs.merge(heaps, reaches)
+	st.seg = f.newSeg(segs...)
+	out := results[len(results)-1]
+	for i := len(results) - 2; i >= 0; i-- {
+		a, b := results[i], out
+		if a.K != b.K {
+			continue
+		}
+		out = f.iteVal(reaches[i], a, b)
+	}
+	if out.K != KUnit {
+		out = f.nameVal("res.dispatch", out)
+	}
+	f.exact["call-dispatch"]++
+	return out, true
+}
+
+// siteOrdinal: the 1-based position, in source order, of call site `site` among
+// the call sites of this function that can be addressed by `callee`.
+func (fr *frame) siteOrdinal(callee string, site ssa.Instruction) int {
+	if fr.siteOrd == nil {
+		fr.siteOrd = map[string][]ssa.Instruction{}
+	}
+	list, ok := fr.siteOrd[callee]
+	if !ok {
+		for _, b := range fr.fn.Blocks {
+			for _, in := range b.Instrs {
+				ci, isCall := in.(ssa.CallInstruction)
+				if !isCall {
+					continue
+				}
+				names := calleeNames(ci.Common())
+				cc := ci.Common()
+				if !cc.IsInvoke() && cc.StaticCallee() == nil {
+					for _, b2 := range fr.fn.Blocks {
+						for _, in2 := range b2.Instrs {
+							if d, ok := in2.(*ssa.DebugRef); ok && d.X == cc.Value {
+								if n := debugRefName(d); n != "" {
+									names = append(names, n)
+								}
+							}
+						}
+					}
+				}
+				for _, n := range names {
+					if n == callee {
+						list = append(list, in)
+						break
+					}
+				}
+			}
+		}
+		sort.SliceStable(list, func(i, j int) bool { return list[i].Pos() < list[j].Pos() })
+		fr.siteOrd[callee] = list
+	}
+	for i, in := range list {
+		if in == site {
+			return i + 1
+		}
+	}
+	return 0
 }
